@@ -7,6 +7,7 @@ CONSTANTS
   MaxT6 = 1
   MaxPk = 4
   RRs = {"cpr0", "cpr1", "g2"}
+  SecondConn = FALSE
   ScopeSensitive = TRUE
   Faults = {"wfail"}
 INVARIANTS NoDup Conservation HeldAreInitials BatchOrdered CompleteAtEnd NameRoutes OneTransport Emit
